@@ -1010,6 +1010,86 @@ func (e *SpecEnv) evalCall(n *ECall) SVal {
 			return SVal{V: tv.UTCMid, T: typBool}
 		}
 		return SVal{V: tv.Zero, T: typBool}
+	case "numIsZero", "numIsNat64", "numToU64", "typeMaxU64", "typeIsFloat", "mantBits", "numIsNeg":
+		// numeric-kind generic helpers (the argument's static type decides the meaning)
+		v := arg(0)
+		if v.T == nil {
+			sfail("%s needs a typed argument", name)
+		}
+		if ity, ok := intTyOf(v.T); ok {
+			t := v.V.(*Term)
+			switch name {
+			case "numIsZero":
+				return SVal{V: o.Eq(t, o.ConstI(ity, 0)), T: typBool}
+			case "numIsNeg":
+				return SVal{V: o.Cmp(token.LSS, ity, t, o.ConstI(ity, 0)), T: typBool}
+			case "numIsNat64":
+				return SVal{V: o.Cmp(token.GEQ, ity, t, o.ConstI(ity, 0)), T: typBool}
+			case "numToU64":
+				return SVal{V: o.ConvInt(ity, tyUint64, t), T: types.Typ[types.Uint64]}
+			case "typeMaxU64":
+				return SVal{V: o.Const(tyUint64, ity.Max()), T: types.Typ[types.Uint64]}
+			case "typeIsFloat":
+				return SVal{V: o.False(), T: typBool}
+			case "mantBits":
+				return SVal{C: big.NewInt(64)}
+			}
+		}
+		if fe, fs, ok := floatTyOf(v.T); ok {
+			if !o.M.BV {
+				sfail("%s on a float needs mode bv", name)
+			}
+			f := v.V.(*Term)
+			rtz := o.App("RTZ", &Sort{Kind: SRM})
+			two64 := e.x.floatConst(18446744073709551616.0, fe, fs)
+			zero := e.x.floatConst(0, fe, fs)
+			switch name {
+			case "numIsZero":
+				return SVal{V: o.App("fp.isZero", BoolSort, f), T: typBool}
+			case "numIsNeg":
+				return SVal{V: o.App("fp.lt", BoolSort, f, zero), T: typBool}
+			case "numIsNat64":
+				// finite, >= 0, < 2^64, an integer
+				return SVal{V: o.And(o.Not(o.App("fp.isNaN", BoolSort, f)), o.Not(o.App("fp.isInfinite", BoolSort, f)),
+					o.App("fp.geq", BoolSort, f, zero), o.App("fp.lt", BoolSort, f, two64),
+					o.App("fp.eq", BoolSort, o.App("fp.roundToIntegral", f.Sort, rtz, f), f)), T: typBool}
+			case "numToU64":
+				return SVal{V: o.App("(_ fp.to_ubv 64)", BVSort(64), rtz, f), T: types.Typ[types.Uint64]}
+			case "typeIsFloat":
+				return SVal{V: o.True(), T: typBool}
+			case "mantBits":
+				return SVal{C: big.NewInt(int64(fs))}
+			case "typeMaxU64":
+				return SVal{V: o.BVi(0, 64), T: types.Typ[types.Uint64]} // (only meaningful for integer kinds)
+			}
+		}
+		sfail("%s: unsupported numeric type %s", name, v.T)
+	case "mulFits64":
+		a, b := e.asInt(arg(0), tyUint64), e.asInt(arg(1), tyUint64)
+		if o.M.BV {
+			p := o.BVOp("bvmul", o.ZeroExt(64, a), o.ZeroExt(64, b))
+			return SVal{V: o.Eq(o.Extract(127, 64, p), o.BVi(0, 64)), T: typBool}
+		}
+		return SVal{V: o.Lt(o.Mul(a, b), o.IntBig(two64)), T: typBool}
+	case "bitLen", "trailingZeros":
+		a := e.asInt(arg(0), tyUint64)
+		if !o.M.BV {
+			sfail("%s needs mode bv", name)
+		}
+		// ite chains over the 64 bit positions
+		var r *Term
+		if name == "bitLen" {
+			r = o.BVi(0, 64)
+			for k := 0; k < 64; k++ { // highest set bit wins: build from low to high
+				r = o.Ite(o.Eq(o.Extract(k, k, a), o.BVi(1, 1)), o.BVi(int64(k+1), 64), r)
+			}
+		} else {
+			r = o.BVi(64, 64)
+			for k := 63; k >= 0; k-- { // lowest set bit wins: build from high to low
+				r = o.Ite(o.Eq(o.Extract(k, k, a), o.BVi(1, 1)), o.BVi(int64(k), 64), r)
+			}
+		}
+		return SVal{V: r, T: typInt}
 	case "mathint":
 		// the mathematical value of an integer expression (no wrap-around; int mode)
 		v := arg(0)
